@@ -32,7 +32,7 @@ m = {
                  'kind_free_text': 'hand-written explicit-state / bounded-exhaustive explorers in Python driving the real nutils code (term-space BFS, operation-sequence search against reference models, preemption-bounded process scheduler, crash-point and fault enumerators)'}],
     'checks': checks,
     'not_applicable': na,
-    'notes': 'All checks are bounded exhaustive enumerations (model checking family); bounds and alphabets are in DESIGN.md and in each evidence file. known_findings.json lists repaired (fixed:) and recorded (known) genuine defects.',
+    'notes': 'All checks are bounded exhaustive enumerations (model checking family); bounds and alphabets are in DESIGN.md and in each evidence file. known_findings.json and known_findings.d/<ID>.json list repaired (fixed:, 24 fix: commits on /repo main) and recorded (known) genuine defects; seeded property-breaking changes with their detection record are under seeded/; DESIGN.md section 5 is the as-built record (framework, deviations and false alarms, defects, measured quick tiers, thorough-tier runs, seeded changes).',
 }
 json.dump(m, open(os.path.join(here, 'MANIFEST.json'), 'w'), indent=1)
 print('MANIFEST.json: {} checks, {} not claimed'.format(len(checks), len(na)))
